@@ -11,4 +11,5 @@ pub mod c11_dft;
 pub mod c18;
 pub mod c12;
 pub mod c17;
+pub mod c06;
 pub mod generated;
